@@ -31,6 +31,9 @@ use std::sync::OnceLock;
 
 pub struct C03;
 
+#[path = "c03_objects.rs"]
+pub mod objects;
+
 type F<'a> = Font<DynamicFontTableProvider<'a>>;
 
 const SIG_DOTTED_CIRCLE: &str = "C03:dotted-circle-cache-ignores-arguments";
@@ -391,6 +394,12 @@ const TEXTS: &[(u32, &[&str])] = &[
     (tag::MYMR, &["မြန်မာ", "ကျွန်ုပ်", "ဘာသာ", "ြ", "ကို"]),
     (tag::THAI, &["ภาษาไทย", "น้ำ", "กำ", "ที่", "abcdef"]),
     (tag::LAO, &["ພາສາລາວ", "ນ້ຳ"]),
+    // pools used by the `script-histories` section only (these scripts are in no other pool)
+    (tag::GUJR, &["ગુજરાતી", "ક્ષ", "કિ", "પ્રાર્થના", "\u{25CC}\u{0ABF}"]),
+    (tag::MLYM, &["മലയാളം", "ക്ഷ", "കൊ", "ന്റെ", "\u{25CC}\u{0D3F}"]),
+    (tag::TELU, &["తెలుగు", "క్ష", "కొ", "స్త్రీ"]),
+    (tag::KNDA, &["ಕನ್ನಡ", "ಕ್ಷ", "ಕೊ"]),
+    (tag::SINH, &["සිංහල", "ක්‍ෂ", "කො", "ශ්‍රී"]),
 ];
 
 fn texts_for(script: u32) -> &'static [&'static str] {
@@ -1380,6 +1389,71 @@ fn check_image_case(case: &Case, rec: &mut Rec) -> CaseResult {
     check_on_entry(pool[pick(pool.len(), case.font)], case, rec)
 }
 
+// ------------------------------------------------------------------ complex-script fonts
+
+/// Section `script-histories`: the histories of `histories`, on fonts of the scripts with their
+/// own shaping engines only (Arabic, Syriac, Indic old/new spec, Khmer, Myanmar, Thai/Lao), so
+/// that every one of their caches sees colliding and differing keys often.
+fn script_fonts() -> &'static Vec<FontEntry> {
+    static FONTS: OnceLock<Vec<FontEntry>> = OnceLock::new();
+    FONTS.get_or_init(|| {
+        let mlm2 = tag::MLM2;
+        let fx: &[(&str, &[u32], u32, &'static str)] = &[
+            ("fonts/syriac/SyrCOMEdessa.otf", &[tag::SYRC], 4, "syriac"),
+            ("fonts/noto/NotoSansSyriacEastern-Regular.ttf", &[tag::SYRC], 4, "syriac"),
+            ("fonts/arabic/Scheherazade-Regular.ttf", &[tag::ARAB], 3, "arabic"),
+            ("fonts/noto/NotoNaskhArabic-Regular.ttf", &[tag::ARAB, tag::SYRC], 3, "arabic"),
+            ("fonts/noto/NotoSansDevanagari-Regular.ttf", &[tag::DEVA, tag::DEV2], 3, "devanagari"),
+            ("fonts/devanagari/AnnapurnaSIL-Regular.ttf", &[tag::DEVA, tag::DEV2], 2, "devanagari"),
+            ("fonts/bengali/Lohit-Bengali.ttf", &[tag::BENG, tag::BNG2], 3, "indic-other"),
+            ("fonts/noto/NotoSansTamil-Regular.ttf", &[tag::TAML], 2, "indic-other"),
+            ("fonts/noto/NotoSansGujarati-Regular.ttf", &[tag::GUJR], 2, "indic-other"),
+            ("fonts/malayalam/lohit_ml.ttf", &[tag::MLYM, mlm2], 2, "indic-other"),
+            ("fonts/noto/NotoSansTelugu-Regular.ttf", &[tag::TELU], 2, "indic-other"),
+            ("fonts/noto/NotoSansKannada-Regular.ttf", &[tag::KNDA], 2, "indic-other"),
+            ("fonts/noto/NotoSansSinhala-Regular.ttf", &[tag::SINH], 2, "indic-other"),
+            ("fonts/khmer/Battambang-Regular.ttf", &[tag::KHMR], 4, "khmer"),
+            ("fonts/noto/NotoSansKhmer-Regular.ttf", &[tag::KHMR], 3, "khmer"),
+            ("fonts/myanmar/Padauk-Regular.ttf", &[tag::MYMR], 6, "myanmar"),
+            ("fonts/noto/NotoSansThai-Regular.ttf", &[tag::THAI], 4, "thai"),
+            ("fonts/noto/NotoSansLao-Regular.ttf", &[tag::LAO, tag::THAI], 3, "thai"),
+        ];
+        let mut v = Vec::new();
+        for (p, home, w, kind) in fx {
+            if let Some(b) = fixtures::read(p) {
+                if let Some(mut e) = make_entry(p, b, home, *w, kind, None) {
+                    // the other scripts asked of these fonts: the complex ones first
+                    e.other_scripts = vec![tag::ARAB, tag::SYRC, tag::DEVA, tag::DEV2, tag::BENG, tag::KHMR, tag::MYMR, tag::THAI, tag::LAO, tag::TAML, tag::LATN, tag::DFLT];
+                    v.push(e);
+                }
+            }
+        }
+        v
+    })
+}
+
+fn check_script_case(case: &Case, rec: &mut Rec) -> CaseResult {
+    let pool = script_fonts();
+    if pool.is_empty() {
+        return Err(Fail::new("C03:harness-no-fonts", "no complex-script font could be loaded"));
+    }
+    let weights: Vec<u32> = pool.iter().map(|f| f.weight).collect();
+    let e = &pool[pick_weighted(case.font, &weights)];
+    // which shaping engine the probe runs in
+    if let Op::Shape(a) | Op::Positions { args: a, .. } = resolve(e, &case.probe, &case.probe) {
+        rec.class(&format!("script-probe:{}", tag_str(a.script)));
+    }
+    check_on_entry(e, case, rec)
+}
+
+/// shaping-heavy mix for `script-histories`
+fn script_case_strategy() -> impl Strategy<Value = Case> {
+    let probe_kind = prop_oneof![6 => Just(K_SHAPE), 2 => Just(K_POS), 1 => Just(K_MAP), 2 => Just(K_LOOKUP)];
+    let probe = (probe_kind, proptest::array::uniform7(any::<u32>()), any::<u8>()).prop_map(|(kind, r, flags)| OpSpec { kind, r, flags, copy: 0 });
+    (any::<u32>(), proptest::collection::vec(op_strategy(true), 1..11), probe, any::<u32>(), prop_oneof![5 => Just(None), 1 => any::<u32>().prop_map(|seed| Some(Mutation { seed, mode: 1 }))])
+        .prop_map(|(font, history, probe, sample, mutation)| Case { font, filter: 0, history, probe, sample, mutation })
+}
+
 // ------------------------------------------------------------------ fonts generated per case
 
 /// A font built per case from a C04 GSUB program and/or a C05 GPOS tape (the code path of
@@ -1938,6 +2012,9 @@ impl Property for C03 {
          Non-trivial = the history contains at least one op of the probe's kind family (shape/positions; map_glyphs or shaping; lookup or mapping or shaping; advances; names; images) whose arguments differ from the probe's (argument-less queries: any earlier call). Classes record which argument differs; `tuple-differs-with-feature-variations` = shaping probe on a font with FeatureVariations after shaping with a tuple that selects another feature-variation record. \
          Section `pure-twice`: subset / whole_font / prince::subset / instance / container decoding (sfnt, WOFF, WOFF2) are run twice from fresh providers with unrelated work in between and twice on one provider; outputs must be byte-identical (table tags compared as sorted sets); non-trivial = the operation succeeded with non-empty output. \
          Section `image-config`: on the fonts with image tables (sbix, SVG, EBDT, unreadable SVG) histories of image queries, VS16 lookups and set_embedded_image_filter calls; the fresh font of a comparison carries the filter last set on the used font (class `image-query-after-filter-change-on-used-font` = the filter was changed after the used font had answered a query). \
+         Section `outline-objects`: one outline source parsed once per case (LocaTable + GlyfTable from C16's table / chain generator with 0-2 records damaged after encoding, or a TrueType fixture with a component of a composite damaged; CFF / CID / CFF2 tables from C18's generator with 0-3 byte faults, or CFF / CFF2 fixtures) serves a history of 0-9 calls and a probe: visits of in-range, composite, nested, out-of-range and failing glyphs (CFF2: a tuple per call from a pool of six), for glyf also get_parsed_glyph, the record queries (number_of_contours / is_composite / number_of_points) and GlyfRecord::parse; Result and the complete sink callback sequence of the probe and of one sampled history call must equal those on a freshly parsed object, and repeating the probe must not change it; a panic on damaged data is C16's / C18's business (skipped, counted); non-trivial = the history holds a call other than the probe. \
+         Section `pure-wide`: prince::subset with a supplied Mac Roman cmap, variations::instance of C12's generated fonts at their generated coordinates, table-by-table decoding of generated WOFF (C10) and WOFF2 (C11 models; transformed glyf / hmtx, collections) files, CFF / CFF2 / glyf writers on generated tables; run twice from freshly parsed input with a sibling operation of the same kind (same structure, other content / arguments), shaping, or allocations in between, and twice on the long-lived object where there is one (container, provider, parsed CFF); byte-identical. \
+         Section `script-histories`: the histories of `histories` on 18 fonts of the scripts with their own shaping engines (Syriac, Arabic, Devanagari, Bengali, Tamil, Gujarati, Malayalam, Telugu, Kannada, Sinhala, Khmer, Myanmar, Thai, Lao; old and new Indic script tags), probe kinds shape / positions / map_glyphs / lookup_glyph_index (class `script-probe:<tag>`). \
          `fv-model` checks the generated font against its model on fresh fonts in every regime; `pinned` replays fixed histories for the two cache-key defects found with this check (repaired since). Distinct by hash of the generated case."
             .to_string()
     }
@@ -1963,6 +2040,12 @@ impl Property for C03 {
         );
         let n = ctx.cases(3_000, 300_000);
         ctx.section("image-config", n, image_case_strategy(), |c, rec| check_image_case(c, rec));
+        let n = ctx.cases(12_000, 1_500_000);
+        ctx.section("outline-objects", n, objects::case_strategy(), |c, rec| objects::check_case(c, rec));
+        let n = ctx.cases(2_000, 200_000);
+        ctx.section("pure-wide", n, objects::wide_strategy(), |c, rec| objects::check_wide(c, rec));
+        let n = ctx.cases(5_000, 1_000_000);
+        ctx.section("script-histories", n, script_case_strategy(), |c, rec| check_script_case(c, rec));
         // variants x 9 tuple choices x 16 (script/lang, smcp, kerning) combinations
         ctx.enumerate("fv-model", fv_font::VARIANTS as u64 * 9 * 16, true, fv_model_item);
         ctx.enumerate("pinned", 8, true, pinned);
